@@ -367,6 +367,11 @@ structure Store where
       specification leaves sign and payload of computed NaNs open, so integer results and
       memory contents that depend on them are not comparable bit for bit -/
   nanBits : Bool := false
+  /-- instrumentation only (never read by `step`): bit mask of *hazards* met so far, used by the harness to tell
+      which executions touch a region where ppci has an open known finding.
+      1 = a float comparison saw a NaN operand; 2 = an f32 operation whose binary64 evaluation is not a binary32
+      number (a host that computes f32 in double precision without rounding differs); 4 = float division by ±0 -/
+  hazards : Nat := 0
   deriving Inhabited
 
 /-- the spec's `label_n{cont}`: a branch carries `arity` values, then continues with
@@ -435,6 +440,31 @@ def loadValue (t : ValType) (pack : Option (Nat × Bool)) (raw : Nat) : Value :=
 
 def isNaNValue : Value → Bool
   | .f32 b => fIsNaN 23 b | .f64 b => fIsNaN 52 b | _ => false
+
+/-! ### hazard instrumentation (does not influence execution) -/
+
+def Store.haz (s : Store) (bit : Nat) (b : Bool) : Store :=
+  if b && s.hazards / bit % 2 == 0 then { s with hazards := s.hazards + bit } else s
+
+def promoteBits (b : BitVec 32) : BitVec 64 := ofF64 (toF32 b).toFloat
+
+/-- the binary64 evaluation of an f32 operation is not the binary32 result -/
+def f32InexactBin (op : FBinOp) (a b : BitVec 32) : Bool :=
+  match op with
+  | .add | .sub | .mul | .div => promoteBits (fbinop32 op a b) != fbinop64 op (promoteBits a) (promoteBits b)
+  | _ => false
+
+def f32InexactUn (op : FUnOp) (a : BitVec 32) : Bool :=
+  match op with
+  | .sqrt => promoteBits (funop32 op a) != funop64 op (promoteBits a)
+  | _ => false
+
+def f32InexactCvt (op : CvtOp) (v r : Value) : Bool :=
+  match op, v, r with
+  | .demote, .f64 a, .f32 b => !fIsNaN 52 a && promoteBits b != a
+  | .convert .w32 _ sg, .i32 a, .f32 b => promoteBits b != convertF64 sg a
+  | .convert .w32 _ sg, .i64 a, .f32 b => promoteBits b != convertF64 sg a
+  | _, _, _ => false
 
 /-! ### one reduction step -/
 
@@ -509,26 +539,33 @@ def step (m : Module) (c : Config) : StepResult :=
     | .ibin .w32 op, .i32 b :: .i32 a :: st =>
       match ibinop op a b with
       | some r => .next { c with stack := .i32 r :: st }
-      | none => .trap (if b = 0 then "integer divide by zero" else "integer overflow") c.store
+      | none => .trap (if b = 0 then "integer divide by zero" else "integer overflow in division") c.store
     | .ibin .w64 op, .i64 b :: .i64 a :: st =>
       match ibinop op a b with
       | some r => .next { c with stack := .i64 r :: st }
-      | none => .trap (if b = 0 then "integer divide by zero" else "integer overflow") c.store
+      | none => .trap (if b = 0 then "integer divide by zero" else "integer overflow in division") c.store
     | .ieqz .w32, .i32 a :: st => .next { c with stack := .i32 (ieqz a) :: st }
     | .ieqz .w64, .i64 a :: st => .next { c with stack := .i32 (ieqz a) :: st }
     | .irel .w32 op, .i32 b :: .i32 a :: st => .next { c with stack := .i32 (irelop op a b) :: st }
     | .irel .w64 op, .i64 b :: .i64 a :: st => .next { c with stack := .i32 (irelop op a b) :: st }
-    | .fun_ .w32 op, .f32 a :: st => .next { c with stack := .f32 (funop32 op a) :: st }
+    | .fun_ .w32 op, .f32 a :: st =>
+      .next { c with stack := .f32 (funop32 op a) :: st, store := c.store.haz 2 (f32InexactUn op a) }
     | .fun_ .w64 op, .f64 a :: st => .next { c with stack := .f64 (funop64 op a) :: st }
-    | .fbin .w32 op, .f32 b :: .f32 a :: st => .next { c with stack := .f32 (fbinop32 op a b) :: st }
-    | .fbin .w64 op, .f64 b :: .f64 a :: st => .next { c with stack := .f64 (fbinop64 op a b) :: st }
-    | .frel .w32 op, .f32 b :: .f32 a :: st => .next { c with stack := .i32 (frelop 23 op a b) :: st }
-    | .frel .w64 op, .f64 b :: .f64 a :: st => .next { c with stack := .i32 (frelop 52 op a b) :: st }
+    | .fbin .w32 op, .f32 b :: .f32 a :: st =>
+      .next { c with stack := .f32 (fbinop32 op a b) :: st,
+                     store := (c.store.haz 2 (f32InexactBin op a b)).haz 4 (op == .div && fmag b == 0) }
+    | .fbin .w64 op, .f64 b :: .f64 a :: st =>
+      .next { c with stack := .f64 (fbinop64 op a b) :: st, store := c.store.haz 4 (op == .div && fmag b == 0) }
+    | .frel .w32 op, .f32 b :: .f32 a :: st =>
+      .next { c with stack := .i32 (frelop 23 op a b) :: st, store := c.store.haz 1 (fIsNaN 23 a || fIsNaN 23 b) }
+    | .frel .w64 op, .f64 b :: .f64 a :: st =>
+      .next { c with stack := .i32 (frelop 52 op a b) :: st, store := c.store.haz 1 (fIsNaN 52 a || fIsNaN 52 b) }
     | .cvt op, v :: st =>
       match cvtop op v with
       | .ok r =>
         let nb := match op with | .reinterpretFI _ => isNaNValue v | _ => false
-        .next { c with stack := r :: st, store := { c.store with nanBits := c.store.nanBits || nb } }
+        .next { c with stack := r :: st,
+                       store := ({ c.store with nanBits := c.store.nanBits || nb }).haz 2 (f32InexactCvt op v r) }
       | .trap why => .trap why c.store
       | .stuck why => .stuck why
     | .localGet i, st =>
